@@ -126,6 +126,35 @@ def plain_also_fails(g, var, f, true_chunks):
 CUR = {"base": "leaf"}
 
 
+def directed_unknown(y, ev, ctx, problems, label, da):
+    """Operations that meet the unknown axis with something of KNOWN size, or re-block it: each must either refuse
+    (raise) or compute what NumPy computes - never a silently different array."""
+    if ev.ndim < 1 or ev.size == 0 or ev.dtype.kind == "b":
+        return
+    K = ev.shape[0]
+    cases = []
+    if ev.ndim == 1:
+        w = np.arange(K, dtype=ev.dtype) * 3
+        cases.append(("add_known_single_chunk_operand", lambda: y + da.from_array(w, chunks=(K,)), lambda: ev + w))
+        cases.append(("add_numpy_operand", lambda: y + w, lambda: ev + w))
+    cases.append(("apply_along_axis_sum", lambda: da.apply_along_axis(np.sum, 0, y), lambda: np.apply_along_axis(np.sum, 0, ev)))
+    cases.append(("rechunk_unknown_axis_to_one_nan_block", lambda: y.rechunk({0: (np.nan,)}), lambda: ev))
+    cases.append(("sum_axis0", lambda: y.sum(axis=0), lambda: ev.sum(axis=0)))
+    for name, fd, fn in cases:
+        try:
+            got = np.asarray(fd().compute())
+        except Exception as e:
+            ctx.tab("directed_unknown", f"{name}|refused:{type(e).__name__}")
+            continue
+        want = np.asarray(fn())
+        ctx.count("directed_unknown_results_compared")
+        if got.shape != want.shape or not np.allclose(got.astype("f8"), want.astype("f8"), equal_nan=True):
+            ctx.tab("directed_unknown", f"{name}|WRONG")
+            problems.append(("unknown_size_result_wrong", f"{label}: {name} over an array of unknown chunk sizes returned shape {got.shape} (NumPy: {want.shape}) / other values instead of refusing", f"unknown:directed:{name}"))
+        else:
+            ctx.tab("directed_unknown", f"{name}|agrees")
+
+
 def follow(g, var, nfollow, ctx, problems, phase, label, true_chunks=None):
     """Apply generated ops to `var` (an adopted unknown/resolved array); compare whatever is returned with NumPy."""
     cur = var
@@ -238,6 +267,7 @@ def check_case(p, ctx):
     if unknown:
         g, v = new_prog(y)
         follow(g, v, p["nfollow"], ctx, problems, "unknown", label, true_chunks)
+        directed_unknown(y, ev, ctx, problems, label, da)
     # a derivation taken before sizes are computed
     try:
         early = y + 1 if ev.dtype.kind != "b" else y
